@@ -188,6 +188,13 @@ fn growth(b: &mut Base, until: u64) {
     let slow = b.rng.chance(1, 4);
     while t < until {
         add(&mut b.plan, t, Action::Mine { branch: 0, n: b.rng.range(1, 2) });
+        if b.rng.chance(1, 4) {
+            // two announcements in quick succession (the first one is not proven yet)
+            let n = b.rng.range(2, 3);
+            let dt = b.rng.range(200, 4_000);
+            add(&mut b.plan, t + dt, Action::Mine { branch: 0, n });
+            add(&mut b.plan, t + dt + b.rng.range(100, 3_000), Action::Mine { branch: 0, n: 1 });
+        }
         t += if slow { b.rng.range(20_000, 45_000) } else { b.rng.range(4_000, 40_000) };
     }
 }
